@@ -7,9 +7,9 @@ from ufo import build, err_kind, rat
 import lib_C18 as L
 
 ID = "C18"
-THEOREM = ("Ufo2ft.C18.C18_all_partial / C18_classes_partial / C18_classes_font / C18_classes_disjoint / C18_carets_partial / "
+THEOREM = ("Ufo2ft.C18.C18_all / C18_classes / C18_classes_font / C18_classes_disjoint / C18_carets / "
            "C18_carets_font / C18_carets_var_partial / caretValueOld_eq / C18_curs / C18_curs_flag / C18_ltr_extras / C18_ltr_extras_mem / C18_seq / runSeq_eq / "
-           "C18_seq_independent / C18_user_left_alone_partial / C18_unnamed_anchor_ignored / "
+           "C18_seq_independent / C18_user_left_alone / gdefTodoOld_eq / C18_unnamed_anchor_ignored / "
            "C18_quantize / C18_anchor / C18_categories / C18_pairs / holdsPairs_unique")
 N = {"quick": 420, "thorough": 20000}
 RULE = ("random small fonts (Latin, Arabic, Hebrew, Greek, common-script and unencoded glyphs; ufoLib2/defcon; TTF/OTF) with "
@@ -17,7 +17,8 @@ RULE = ("random small fonts (Latin, Arabic, Hebrew, Greek, common-script and une
         "(equal values, values equal after rounding, half-integers, negatives, look-alike names, several caret anchors sharing a "
         "name), entry/exit anchors (one-sided, "
         "numbered and .LTR/.RTL suffixed pairs, mixed-direction repertoires, GSUB closure of direction), skipExportGlyphs, user "
-        "GDEF blocks (GlyphClassDef / LigatureCaretByPos / ByIndex / neither), user curs feature with and without insertion marker, "
+        "GDEF blocks (one to three `table GDEF` blocks, GlyphClassDef / LigatureCaretByPos / ByIndex / neither in any of them, also "
+        "contradicting the UFO categories), user curs feature with and without insertion marker, "
         "writers with a quantization option; compiled through compileTTF/compileOTF and read back from GDEF/GPOS and from the final "
         "feature text.  Multi-font stream (max(40, n/6) cases of 1-3 fonts, one request per compiled font): (seq) several unrelated "
         "fonts or masters of one family compiled one after the other with the SAME featureWriters list; (interp) "
@@ -42,10 +43,11 @@ ASSUMED = [
 ]
 
 _FINDINGS_FILE = os.path.join(os.path.dirname(os.path.dirname(os.path.dirname(os.path.abspath(__file__)))), "known_findings.json")
-FINDING_KINDS = ("gdef-statement-in-later-user-block-ignored", "same-named-caret-anchors-collapse-to-last")
+FINDING_KINDS = ("same-named-caret-anchors-collapse-to-last",)
 # repaired in ufo2ft (known_findings.json kind "fixed"): its input shape is ordinary input now, and classify_failure still
 # names it, so that a recurrence is reported as a VIOLATION carrying this shape
-FIXED_KINDS = ("same-named-caret-anchors-collapse-to-first", "unnamed-anchor-crashes-curs-writer")
+FIXED_KINDS = ("same-named-caret-anchors-collapse-to-first", "unnamed-anchor-crashes-curs-writer",
+               "gdef-statement-in-later-user-block-ignored")
 
 
 def enabled_findings():
@@ -145,8 +147,6 @@ def gen_font(rng, mode, findings):
     names = [g["name"] for g in glyphs]
     # findings streams (see enabled_findings)
     # at most one finding shape per case, so that each failure has exactly one cause
-    font_findings = sorted(f for f in findings if f == "gdef-statement-in-later-user-block-ignored")
-    inject = rng.choice(font_findings) if font_findings and rng.random() < 0.08 else None
     if rng.random() < 0.08:
         # several caret anchors sharing a name: each contributes its own coordinate (repaired in ufo2ft; before, the first
         # one's coordinate was read for all of them)
@@ -189,32 +189,26 @@ def gen_font(rng, mode, findings):
         fd["glyphOrder"] = go[:rng.randrange(len(go) + 1)]
     # user GDEF blocks
     blocks = []
-    later = inject == "gdef-statement-in-later-user-block-ignored"
-    if (later or rng.random() < 0.4) and exported:
-        nb = 2 if later else (1 if rng.random() < 0.75 else 2)
+    # any number of `table GDEF` blocks is ordinary input: the writer scans all of them (repaired in ufo2ft; before, a
+    # statement in a later block did not stop it) and appends to the first
+    if rng.random() < 0.45 and exported:
+        nb = rng.choice([1, 1, 1, 2, 2, 3])
         kinds = []
         for k in range(nb):
             kinds.append({"classdef": rng.random() < 0.45, "carets": rng.choice([None, None, "pos", "index"])})
-        if nb == 2:
-            # a statement kind may only sit in a later block if the first block has it too (else: finding shape)
-            for key in ("classdef", "carets"):
-                if kinds[1][key] and not kinds[0][key]:
-                    if later:
-                        continue
-                    kinds[0][key], kinds[1][key] = kinds[1][key], (False if key == "classdef" else None)
-            # at most one block of each kind, to keep the user's own statements conflict-free
-            if kinds[0]["classdef"] and kinds[1]["classdef"]:
-                kinds[1]["classdef"] = False
-            if kinds[0]["carets"] and kinds[1]["carets"]:
-                kinds[1]["carets"] = None
+        # at most one block of each kind, to keep the user's own statements conflict-free
+        seen_cd = seen_car = False
+        for kd in kinds:
+            if kd["classdef"] and seen_cd:
+                kd["classdef"] = False
+            if kd["carets"] and seen_car:
+                kd["carets"] = None
+            seen_cd = seen_cd or kd["classdef"]
+            seen_car = seen_car or bool(kd["carets"])
         for kd in kinds:
             b = {"classdef": None, "carets": None, "caretKind": kd["carets"]}
             if kd["classdef"]:
                 gl = [nm for nm in exported if rng.random() < 0.6]
-                if later and blocks:
-                    # keep the user's later definition free of conflicts with the UFO categories (a conflict makes the
-                    # merged feature file uncompilable: same defect, but then there is no font to look at)
-                    gl = [nm for nm in gl if cats.get(nm) not in CATS_OK[:4]]
                 cd = [[], [], [], []]
                 for nm in gl:
                     cd[rng.randrange(4)].append(nm)
@@ -437,10 +431,18 @@ def witnesses(findings):
                blocks=[{"classdef": [["b"], [], ["x"], []], "carets": [["b", [10, 20]]], "caretKind": "pos"}])
     yield dict(base, fd={"glyphs": mixed, "lib": {"public.openTypeCategories": cats}}, userCurs="plain",
                blocks=[{"classdef": None, "carets": [["b", [1]]], "caretKind": "index"}])
-    if "gdef-statement-in-later-user-block-ignored" in findings:
-        yield dict(base, fd={"glyphs": mixed, "lib": {"public.openTypeCategories": cats}},
-                   blocks=[{"classdef": None, "carets": None, "caretKind": None},
-                           {"classdef": [["period"], [], [], []], "carets": None, "caretKind": None}])
+    # several user GDEF blocks are ordinary input (the reproducers of the repaired first-block-only scan: a later block's
+    # statements stand alone, also where they contradict the UFO categories)
+    yield dict(base, fd={"glyphs": mixed, "lib": {"public.openTypeCategories": cats}},
+               blocks=[{"classdef": None, "carets": None, "caretKind": None},
+                       {"classdef": [["period"], [], [], []], "carets": None, "caretKind": None}])
+    yield dict(base, fd={"glyphs": mixed, "lib": {"public.openTypeCategories": cats}}, otf=True,
+               blocks=[{"classdef": None, "carets": None, "caretKind": None},
+                       {"classdef": [["f_i", "x"], [], ["a"], []], "carets": [["f_i", [100]]], "caretKind": "pos"}])
+    yield dict(base, fd={"glyphs": mixed, "lib": {"public.openTypeCategories": cats}},
+               blocks=[{"classdef": [["a"], ["f_i"], [], []], "carets": None, "caretKind": None},
+                       {"classdef": None, "carets": None, "caretKind": None},
+                       {"classdef": None, "carets": [["f_i", [2]]], "caretKind": "index"}])
     # caret anchors sharing a name are ordinary input (the reproducer of the repaired collapse, and a mixed glyph)
     yield dict(base, fd={"glyphs": [_g("f_i", [("caret_1", 100, 0), ("caret_1", 200, 0)])], "lib": {}})
     yield dict(base, fd={"glyphs": [_g("a", [], 0x61), _g("f_f_i", [("vcaret_1", 0, 50.5), ("caret_2", 300, 7), ("caret_1", 100.5, 0),
@@ -969,8 +971,7 @@ def classify_failure(res):
             return False
         if any(dup(al) for _, al in inp["glyphs"]):
             return {"kind": "same-named-caret-anchors-collapse-to-first"}
-    if not res["agree"]:
-        return None
+    # the shape repaired in ufo2ft (first-block-only scan; kind "fixed"): named whether or not the model agrees, see above
     if bad and set(bad) <= {"classesFea", "caretsFea", "classesFont", "caretsFont"} and parts["gdefIfFirstBlockOnly"] \
             and len(inp["blocks"]) >= 2:
         first = inp["blocks"][0]
@@ -1092,7 +1093,7 @@ def shrink(case):
 
 LEVEL_TEXT = ("Proved for all inputs (Lean, unbounded glyph sets / anchor lists / category maps): the GlyphClassDef the GDEF writer emits "
               "lists, per class, exactly the exported glyphs with that category, strictly sorted, classes disjoint, invalid categories and "
-              "foreign names contributing nothing, and nothing is emitted when the user's (single) GDEF block defines it; the compiled class "
+              "foreign names contributing nothing, and nothing is emitted when any of the user's GDEF blocks defines it; the compiled class "
               "of every glyph is the code of its category; each caret list is increasing and has exactly the otRound(quantize(.)) values of "
               "ALL the glyph's caret_/vcaret_ anchors, also of anchors sharing a name (strictly increasing, de-duplicated in the compiled "
               "font); in a variable build (masters with the same anchor names, caret names distinct within a glyph) the emitted carets "
@@ -1107,14 +1108,14 @@ LEVEL_TEXT = ("Proved for all inputs (Lean, unbounded glyph sets / anchor lists 
 LEVEL_NOTE = ("Trusted: Lean kernel + standard axioms; the correspondence harness and fontTools' decompilers/feaLib parser; direction data "
               "(LTR code points, GSUB closure) is an input taken from ufo2ft's own classifyGlyphs called without rule substitutions - the "
               "rule step itself is modelled and proved; feaLib's compilation of the emitted statements is modelled and measured, not proved; "
-              "only static compilation is modelled (single UFOs and the per-master fonts of compileInterpolatable*; the variable-feature "
-              "branches with VariableScalar anchors are not).  That a writer instance carries nothing but its options from one write() to "
+              "static compilation is modelled (single UFOs and the per-master fonts of compileInterpolatable*) plus, of variable feature "
+              "compilation, the ligature carets only (varcarets stream; the VariableScalar anchors of the curs writer are not).  That a writer instance carries nothing but its options from one write() to "
               "the next is the model's reading of BaseFeatureWriter.write (runSeq) and is measured, per font, on every multi-font case; "
-              "a state leak that does not reach GDEF classes, carets or cursive lookups would not be seen.  Two input shapes on "
-              "which the code departs from the property are theorem hypotheses and known findings: more than one user GDEF block (oneBlock), "
-              "and, in the VARIABLE path only, caret anchors sharing a name (caretLast: _getAnchor looks them up by name per source and the "
-              "last one wins).  Two shapes were repaired in ufo2ft and are ordinary inputs now: an unnamed anchor crashed the curs writer "
-              "(87dd8ed, theorem C18_unnamed_anchor_ignored), and in static builds same-named caret anchors collapsed to the first "
-              "(_getLigatureCarets now hands the anchor to _getAnchor; C18_carets_partial / C18_carets_font have no name hypothesis any "
-              "more; the old function survives as caretValueOld with a labelled counterexample, and classify_failure still names the shape "
-              "so that a recurrence is a VIOLATION).")
+              "a state leak that does not reach GDEF classes, carets or cursive lookups would not be seen.  One input shape on "
+              "which the code departs from the property is a theorem hypothesis and a known finding: in the VARIABLE path only, caret anchors "
+              "sharing a name (caretLast: _getAnchor looks them up by name per source and the last one wins).  Three shapes were repaired in "
+              "ufo2ft and are ordinary inputs now: an unnamed anchor crashed the curs writer (87dd8ed, theorem C18_unnamed_anchor_ignored); "
+              "in static builds same-named caret anchors collapsed to the first (aa2c05a: _getLigatureCarets hands the anchor to _getAnchor; "
+              "old function caretValueOld); and GdefFeatureWriter.setContext scanned only the first user `table GDEF` block (now all blocks: "
+              "C18_classes / C18_carets / C18_user_left_alone / C18_all have no block hypothesis any more; old function gdefTodoOld with a "
+              "labelled counterexample).  classify_failure still names the repaired shapes so that a recurrence is a VIOLATION.")
